@@ -128,7 +128,7 @@ func runLiterals(c *vp.Child) {
 		}
 	}
 	rnd := c.Rand("numerals")
-	nNum := c.Pick(24000, 600000) / c.NB
+	nNum := c.Pick(24000, 320000) / c.NB
 	for i := 0; i < nNum; i++ {
 		s, class := randNumeralLit(rnd)
 		lb.add(numeralItem(s, class))
@@ -147,7 +147,7 @@ func runLiterals(c *vp.Child) {
 		}
 	}
 	rs := c.Rand("strings")
-	nStr := c.Pick(16000, 400000) / c.NB
+	nStr := c.Pick(16000, 240000) / c.NB
 	for i := 0; i < nStr; i++ {
 		lb.add(randomString(rs))
 	}
@@ -160,7 +160,7 @@ func runLiterals(c *vp.Child) {
 		}
 	}
 	rl := c.Rand("long")
-	nLong := c.Pick(8000, 200000) / c.NB
+	nLong := c.Pick(8000, 120000) / c.NB
 	for i := 0; i < nLong; i++ {
 		lb.add(randomLong(rl))
 	}
@@ -182,9 +182,9 @@ func runLiterals(c *vp.Child) {
 
 func numeralItem(s, class string) litItem {
 	v, st := nm.ParseNumeral(s)
-	sig := "numeral " + class + " " + s
-	if len(sig) > 70 {
-		sig = sig[:70]
+	sig := "numeral " + class
+	if class == "fixed" {
+		sig += " " + s
 	}
 	switch st {
 	case nm.Val:
